@@ -87,7 +87,14 @@ func checkLastActive(r *Run) {
 		for _, pol := range []int{+1, -1} {
 			pol := pol
 			edges := condEdges(fn, func(cond ssa.Value, _ *ssa.If) int {
-				if derivesFrom(cond, func(y ssa.Value) bool { return strings.HasSuffix(pathOf(y).FieldString(), "SignedLastBlock") }) {
+				// any test on the vote itself (a field, or a getter called on the element of the Votes slice)
+				if derivesFrom(cond, func(y ssa.Value) bool {
+					if strings.HasSuffix(pathOf(y).FieldString(), "SignedLastBlock") {
+						return true
+					}
+					ia, ok := y.(*ssa.IndexAddr)
+					return ok && strings.HasSuffix(pathOf(ia.X).FieldString(), "Votes")
+				}) {
 					return pol
 				}
 				return 0
